@@ -559,7 +559,7 @@ impl World {
                 let m = self.writers[wi].as_ref().unwrap().w.get_matched_subscriptions().await.map(|v| v.len()).unwrap_or(0);
                 core.log(json!({"ev": "Matched", "w": wi, "n": m, "want": n}));
             }
-            "write" | "dispose" | "unregister" => {
+            "write" | "dispose" | "unregister" | "register" => {
                 let wi = st["w"].as_u64().unwrap_or(0) as usize;
                 let kind = st["do"].as_str().unwrap();
                 let id = st["i"].as_u64().unwrap_or(1) as u8;
@@ -583,6 +583,7 @@ impl World {
                         ("dispose", None) => w.dispose(d, None).await,
                         ("dispose", Some(t)) => w.dispose_w_timestamp(d, None, t).await,
                         ("unregister", None) => w.unregister_instance(d, None).await,
+                        ("register", _) => w.register_instance(d).await.map(|_| ()),
                         (_, Some(t)) => w.unregister_instance_w_timestamp(d, None, t).await,
                         _ => unreachable!(),
                     }
